@@ -253,11 +253,12 @@ def check_law(doc_t, law, want_model=False):
                 out["invalid"] = True
                 return out
             psd_t = cc.build(doc_t)
-            a, b = rc(psd_t), rc(cc.build(base))
+            V = tuple(law["V"]) if law.get("V") else canvas
+            vk = {"viewport": V} if law.get("V") else {}
+            a, b = rc(psd_t, **vk), rc(cc.build(base), **vk)
             a_real = a
             if law["noop"] == "zero-opacity":
                 a = (a[0], b[1], a[2])          # the shape of a zero-opacity layer is still its shape (theorem: alpha and colour)
-            V = canvas
         elif kind == "wrap":
             nodes = find_named(doc_t["recipe"], "wrap")
             if len(nodes) != 1 or {k: nodes[0].get(k) for k in WRAP} != WRAP or not nodes[0]["children"] \
@@ -269,8 +270,9 @@ def check_law(doc_t, law, want_model=False):
                 out["invalid"] = True
                 return out
             psd_t = cc.build(doc_t)
-            a, b = rc(psd_t), rc(cc.build(base))
-            V = canvas
+            V = tuple(law["V"]) if law.get("V") else canvas
+            vk = {"viewport": V} if law.get("V") else {}
+            a, b = rc(psd_t, **vk), rc(cc.build(base), **vk)
         elif kind == "viewport":
             V, ref = tuple(law["V"]), tuple(law["ref"])
             psd_t = cc.build(doc_t)
@@ -284,8 +286,9 @@ def check_law(doc_t, law, want_model=False):
                 out["mismatch"] = {"what": "not-bit-identical"}
         elif kind == "reopen":
             psd_t = cc.save_reopen(cc.build(doc_t))
-            a, b = cc.real_composite(psd_t), cc.real_composite(cc.build(doc_t))
-            V = canvas
+            V = tuple(law["V"]) if law.get("V") else canvas
+            vk = {"viewport": V} if law.get("V") else {}
+            a, b = cc.real_composite(psd_t, **vk), cc.real_composite(cc.build(doc_t), **vk)
             if not all(np.array_equal(x, y) for x, y in zip(a, b)) and cc.compare(a, b) is None:
                 out["mismatch"] = {"what": "not-bit-identical"}
         elif kind == "reopen-after-move":
@@ -436,6 +439,90 @@ def viewports(rng, W, H):
     return out
 
 
+def beyond_canvas(W, H):
+    """(class, V): viewports that extend beyond the canvas on each side singly, on all sides, over each corner, that lie wholly
+    outside on each side (where only layers hanging over that edge are seen), and the degenerate ones"""
+    out = [("beyond-left", (-3, 0, W, H)), ("beyond-top", (0, -2, W, H)), ("beyond-right", (0, 0, W + 3, H)), ("beyond-bottom", (0, 0, W, H + 2)),
+           ("beyond-all-sides", (-4, -3, W + 4, H + 3)), ("over-top-left-corner", (-3, -2, W // 2 + 1, H // 2 + 1)),
+           ("over-bottom-right-corner", (W // 2, H // 2, W + 3, H + 2)),
+           ("outside-left", (-3, 0, 0, H)), ("outside-right", (W, 0, W + 3, H)), ("outside-top", (0, -3, W, 0)), ("outside-bottom", (0, H, W, H + 3)),
+           ("outside-far", (W + 10, H + 10, W + 12, H + 12)),
+           ("degenerate", (0, 0, 0, 0)), ("degenerate", (min(2, W), 0, min(2, W), H)), ("degenerate", (0, min(2, H), W, min(2, H))),
+           ("degenerate", (-2, -2, -2, -2))]
+    return out
+
+
+def overhang_docs():
+    """Seed-independent documents whose layers hang over EVERY canvas edge and corner (plus one inside, one wholly outside), with
+    non-NORMAL blend modes and partial alpha over an opaque backdrop - flat, inside an isolated group, inside nested groups - in the
+    three colour modes. Every law of this check is evaluated on them under every viewport of beyond_canvas()."""
+    docs = []
+    for mode in ("RGB", "L", "CMYK"):
+        ch = cc.MODE_CH[mode]
+        W, H = 7, 6
+        nprng = np.random.RandomState(1300 + ch)
+
+        def px(name, rect, blend, opacity=255, alpha=255, clip=False):
+            l, t, r, b = rect
+            al = nprng.choice([0, 90, 200, 255, 255], size=(b - t, r - l)).astype(np.uint8) if alpha == "pattern" else np.full((b - t, r - l), alpha, np.uint8)
+            return {"t": "pixel", "name": name, "rect": list(rect), "color": nprng.randint(20, 236, size=(b - t, r - l, ch)).astype(np.uint8),
+                    "alpha": al, "opacity": opacity, "fill": None, "blend": blend, "visible": True, "clip": clip, "knockout": False, "mask": None}
+
+        def hanging():
+            return [px("left", (-3, 1, 3, 4), "MULTIPLY", alpha=220), px("top", (2, -3, 5, 2), "SCREEN", opacity=180),
+                    px("right", (W - 3, 2, W + 3, 5), "DIFFERENCE", alpha="pattern"), px("bottom", (1, H - 2, 4, H + 3), "OVERLAY"),
+                    px("corner", (-2, -2, 2, 2), "LINEAR_BURN", alpha=200), px("corner2", (W - 2, H - 2, W + 2, H + 2), "NORMAL", alpha=160),
+                    px("inside", (2, 2, 5, 4), "EXCLUSION", alpha="pattern"), px("outside", (W + 1, -3, W + 3, -1), "NORMAL")]
+
+        back = px("back", (0, 0, W, H), "NORMAL")
+        docs.append({"recipe": [back] + hanging(), "size": [W, H], "mode": mode})
+        grp = lambda blend, opacity, kids: {"t": "group", "name": "g" + blend, "blend": blend, "opacity": opacity, "fill": None, "visible": True,
+                                            "clip": False, "knockout": False, "children": kids}
+        h = hanging()
+        docs.append({"recipe": [back, h[0], grp("NORMAL", 200, h[1:5]), h[5], h[6], h[7]], "size": [W, H], "mode": mode})
+        h = hanging()
+        docs.append({"recipe": [back, grp("PASS_THROUGH", 255, [h[0], grp("MULTIPLY", 255, h[1:4]), h[4]]), h[5], h[6]], "size": [W, H], "mode": mode})
+        h = hanging()
+        h[1]["clip"] = True
+        h[3]["clip"] = True
+        docs.append({"recipe": [back] + h[:6], "size": [W, H], "mode": mode})
+    return docs
+
+
+def overhang_tasks():
+    """the deterministic stream of laws under viewports that go beyond the canvas (see overhang_docs / beyond_canvas)"""
+    import random
+    rng = random.Random("C13-overhang")
+    nprng = np.random.RandomState(1313)
+    tasks = []
+    for doc in overhang_docs():
+        W, H = doc["size"]
+        ch = cc.MODE_CH[doc["mode"]]
+        vps = beyond_canvas(W, H)
+        for cls, V in vps:
+            ref = (min(0, V[0]) - 1, min(0, V[1]) - 1, max(W, V[2]) + 1, max(H, V[3]) + 1)
+            tasks.append({"doc_t": doc, "law": {"kind": "viewport", "class": cls, "V": list(V), "ref": list(ref)}, "want_model": cls == "beyond-all-sides"})
+            tasks.append({"doc_t": doc, "law": {"kind": "reopen", "class": cls, "V": list(V)}})
+        segs = wrap_segments(doc["recipe"])
+        for path, i, j in segs:
+            r2 = apply_wrap(doc["recipe"], path, i, j)
+            if not depth_ok(r2):
+                continue
+            for cls, V in vps:
+                tasks.append({"doc_t": dict(doc, recipe=r2), "law": {"kind": "wrap", "class": cls, "path": list(path), "span": [i, j], "V": list(V)},
+                              "want_model": cls == "beyond-all-sides" and j - i == 2})
+        pts = insertion_points(doc["recipe"])
+        for path, i, in_run, orphan_zone in pts[::2]:
+            kind = rng.choice(NOOP_KINDS[:-1])       # ("outside" means outside the CANVAS: such a layer may lie inside a wider viewport)
+            node = noop_node(rng, nprng, kind, (W, H), ch, in_run)
+            if orphan_zone:
+                node["clip"] = True
+            for cls, V in rng.sample(vps, 3):
+                tasks.append({"doc_t": dict(doc, recipe=apply_insert(doc["recipe"], path, i, node)),
+                              "law": {"kind": "noop", "noop": kind, "class": cls, "path": list(path), "index": i, "V": list(V)}})
+    return tasks
+
+
 def make_tasks(ctx, docs, per_doc_noop, per_doc_wrap, rng=None):
     rng = rng or ctx.rng
     nprng = np.random.RandomState(rng.randrange(2 ** 32))
@@ -459,8 +546,11 @@ def make_tasks(ctx, docs, per_doc_noop, per_doc_wrap, rng=None):
                 node = noop_node(rng, nprng, kind, (W, H), ch, in_run)
                 if orphan_zone:
                     node["clip"] = True      # below the first base every layer is an orphan; a base here would adopt them
-                tasks.append({"doc_t": dict(doc, recipe=apply_insert(doc["recipe"], path, i, node)),
-                              "law": {"kind": "noop", "noop": kind, "path": list(path), "index": i},
+                law = {"kind": "noop", "noop": kind, "path": list(path), "index": i}
+                if rng.random() < 0.3 and kind != "outside":        # ("outside" means outside the CANVAS: it may lie inside a wider viewport)
+                    law["class"], V = rng.choice(beyond_canvas(W, H))
+                    law["V"] = list(V)
+                tasks.append({"doc_t": dict(doc, recipe=apply_insert(doc["recipe"], path, i, node)), "law": law,
                               "want_model": rng.random() < 0.15})
         segs = wrap_segments(doc["recipe"])
         if per_doc_wrap is not None and len(segs) > per_doc_wrap:
@@ -471,6 +561,9 @@ def make_tasks(ctx, docs, per_doc_noop, per_doc_wrap, rng=None):
                 continue
             tasks.append({"doc_t": dict(doc, recipe=r2), "law": {"kind": "wrap", "path": list(path), "span": [i, j]},
                           "want_model": rng.random() < 0.2})
+            cls, V = rng.choice(beyond_canvas(W, H))
+            tasks.append({"doc_t": dict(doc, recipe=r2), "law": {"kind": "wrap", "class": cls, "path": list(path), "span": [i, j], "V": list(V)},
+                          "want_model": rng.random() < 0.1})
         for codec in CODECS:
             tasks.append({"doc_t": doc, "law": {"kind": "compression", "codec": codec}})
         tasks.append({"doc_t": doc, "law": {"kind": "reopen"}})
@@ -492,13 +585,16 @@ def law_from_json(j):
     return {"doc_t": dict(j["doc"], recipe=comp_fx.recipe_from_json(j["doc"]["recipe"])), "law": j["law"]}
 
 
-def law_prefix(law):
+def law_prefix(law, with_view=True):
     k = law["kind"]
     flt = "+layer-filter" if law.get("filter") else ""
+    vw = f"/viewport-{law['class']}" if law.get("V") and with_view else ""
     if k == "noop":
-        return f"C13/noop/{law['noop']}{flt}"
+        return f"C13/noop/{law['noop']}{flt}{vw}"
     if k == "wrap":
-        return f"C13/passthrough-wrap{flt}"
+        return f"C13/passthrough-wrap{flt}{vw}"
+    if k == "reopen" and vw:
+        return f"C13/save-reopen{vw}"
     if k == "viewport":
         return f"C13/viewport/{law['class']}{flt}"
     if k == "compression":
@@ -553,7 +649,8 @@ def report(ctx, task, res):
                  "out over the group's box, which the inserted layer's rectangle extends", law_json(t2), r["mismatch"],
                  "the composite of the document without the layer")
     elif r["mismatch"]:
-        sig = f"{law_prefix(law)}/{feats}/{r['mismatch']['what']}"
+        # (the CMYK non-separable mechanism - a defect of the blend functions, C12 - is the same under every viewport)
+        sig = f"{law_prefix(law, with_view=feats != 'cmyk-non-separable')}/{feats}/{r['mismatch']['what']}"
         ctx.fail(sig, f"{law['kind']} law violated by the real compositor ({r['mismatch']['what']})", law_json(t2), r["mismatch"],
                  "the composite of the related input (alpha, shape; colour where alpha > 1e-4)")
     else:
@@ -790,6 +887,15 @@ def run(ctx: core.Run):
                                    "histogram": "histograms.matrix (documents of the deterministic stream per cell)"}
     if zero:
         ctx.skipped.append(f"{len(zero)} cell(s) of the feature matrix were not exercised: {zero[:10]}")
+    otasks = overhang_tasks()
+    for t in otasks:
+        ctx.hist("beyond_canvas_stream", f"{t['law']['kind']}/{t['law'].get('class')}")
+    for k in range(0, len(otasks), 4000):
+        process(ctx, otasks[k:k + 4000], st)
+    # documents built through the public API, every group constructor the API has (by reflection): save -> reopen and the wrap law
+    import c13_api
+    c13_api.run(ctx, random.Random("C13-api"), ctx.quick)
+    c13_api.run(ctx, rng, ctx.quick)
     n_docs = 60 if ctx.quick else 900
     nprng = np.random.RandomState(rng.randrange(2 ** 32))
     docs = []
@@ -826,7 +932,15 @@ def run(ctx: core.Run):
         "(comp_matrix.covering_docs: a VERIF_SEED-independent subset of C11's matrix stream that exercises every cell - clip runs on every kind "
         "of base, knockout, group attributes incl. masks, nesting, geometry; 4 (thorough 10) positions x 2 kinds and 4 (10) segments each), then "
         "documents from the C11 generator (every 8th from "
-        "its hard-mix / non-separable stream); fixtures: viewport (inside, degenerate), save -> reopen, range. evaluations = pixels related; "
+        "its hard-mix / non-separable stream); every wrapped segment additionally under one viewport that goes BEYOND the canvas and a share "
+        "of the no-op insertions too; a seed-independent stream of documents whose layers hang over every canvas edge and corner (flat, in an "
+        "isolated group, in nested groups, with clip runs; RGB / L / CMYK) on which the viewport, wrap, no-op and save -> reopen laws are "
+        "evaluated under 16 viewports (beyond each side singly, beyond all sides, over two corners, wholly outside on each side, far "
+        "outside, (0,0,0,0), zero width, zero height, degenerate outside); documents built through the PUBLIC API with every group "
+        "constructor found by reflection (public classmethods of Group and its subclasses) x parent {absent, document, enclosing API "
+        "group} x open_folder x the way the group is filled and attached, children with non-NORMAL blend modes hanging over the edges of an "
+        "opaque backdrop: composite before save = after reopen, flat = grouped in memory and after reopen, under the canvas and "
+        "beyond-canvas viewports; fixtures: viewport (inside, degenerate), save -> reopen, range. evaluations = pixels related; "
         "correspondence_cases = pixels sent to the Lean model (a seeded share of the transformed inputs, every pixel of the viewport)")
     ctx.trusted_base += [
         "Lean 4.33 kernel; axioms allowed: propext, Classical.choice, Quot.sound (audited per theorem)",
@@ -861,6 +975,9 @@ def C11_model_coverage():
 
 
 NOTES = [
+    "observation (outside the property's quantifier): a group made by Artboard.new / Artboard.group_layers (the constructors Artboard "
+    "inherits from Group) carries no artboard rectangle: Artboard.bbox asserts, so composite() and save() of a document that contains it "
+    "raise AssertionError; nothing to relate, counted in histograms.api_group_laws as not applicable",
     "proved (Props/C13Fx.lean) about the effect-carrying model (Model/CompositeFx.lean): result_in_unit_interval_fx, hidden_noop_fx, "
     "outside_viewport_noop_fx, adjustment_noop, zero_opacity_noop_fx (pixel / fill layers and groups with any overlays AND stroke effects: "
     "the overlays are painted with the layer's alpha, which carries the layer opacity, and the stroke effect's opacity is multiplied by the "
@@ -891,6 +1008,11 @@ def replay(ctx, data):
             V = tuple(inp["viewport"])
             sub = cc.real_composite(PSDImage.open(core.REPO / "tests" / "psd_files" / inp["fixture"]), viewport=V)
             print("viewport", V, "vs crop:", cc.compare(sub, crop(full, (0, 0, psd.width, psd.height), V)))
+        return 0
+    if inp.get("kind") == "api-group":
+        import c13_api
+        c13_api.replay(inp)
+        print("expected:", data.get("expected"))
         return 0
     t = law_from_json(inp)
     r = check_law(t["doc_t"], t["law"])
